@@ -127,3 +127,111 @@ Proof.
         (conj (proj1 (proj2 GlueExamples.ex2_shape)) (proj1 (proj2 (proj2 GlueExamples.ex2_shape))))).
 Qed.
 Print Assumptions glue2_nonvacuous.
+
+(* ================================================================== 3. C16 -> store domain (C13 / C14)
+   coq/store works on its own tree (Tree.spln: every State dereferenced, no nil element) reached through
+   Tree.of_plan, lists a plan's ids in storage order (Tree.pln_ids), and its theorems range over plans in
+   SqliteRep.pln_dom with pairwise distinct ids.  coq/validate says what Submit stores.
+
+   Parameters.  coq/validate reads the registry from the a_plugreg field, coq/store from req_ok plug req;
+   GlueStore.reg_coherent req_ok p  :=  every action of the SUBMITTED plan p that its a_plugreg field calls
+   accepted (Some (_, true)) has req_ok (a_plugin a) (a_req a) = true  (GlueStoreTree.plan_acts p = all
+   actions of p in document order).  coq/store wants instants not before 1970: 0 <= now.
+   GlueStore.good_id u := u_ix u <> 0 /\ u_v7 u = true. *)
+From Coq Require Import Permutation.
+From Coercion.Store Require Tree Rows Spec SqliteModel SqliteRep SqliteStatic.
+From Coercion.Glue Require GlueStoreTree GlueStore GlueStoreHistory GlueStoreCor.
+
+(* the two projects' id lists are permutations of each other (different orders: GlueExamples.ex3_ids),
+   wherever the translation is defined - any plan, any state *)
+Theorem glue3_ids_permutation :
+  forall (p : plan) (tp : Tree.spln), Tree.of_plan p = Some tp ->
+    Permutation (Tree.pln_ids tp) (WF.ids_plan p) /\ Tree.sp_id tp = p_id p.
+Proof. exact GlueStoreTree.of_plan_ids. Qed.
+Print Assumptions glue3_ids_permutation.
+
+(* one accepted Submit: the stored plan translates into coq/store's tree, keeps the returned id, its ids are -
+   up to order - the next k of the supply, pairwise distinct, non-nil, version 7 (cosmosdb's extra demand), and
+   it is in pln_dom for every registry coherent with the submitted plan: exactly op_static's demand on
+   OCreate tp, and c14_create_atomic's premise for its read-back clause *)
+Theorem glue3_submitted_in_store_domain :
+  forall (supply : nat -> uid) (create_ok : plan -> bool),
+    (forall i j, u_ix (supply i) = u_ix (supply j) -> i = j) ->
+    (forall i, u_ix (supply i) <> 0%N /\ u_v7 (supply i) = true) ->
+  forall (now : Z) (regset : bool) (w : Validate.world) (op : option plan) (w' : Validate.world) (id : uid),
+    Validate.submit supply create_ok now regset w op = (w', Some id) ->
+    exists (p sp : plan) (tp : Tree.spln) (k : nat),
+      op = Some p /\ WF.WF p /\ Validate.w_store w' = sp :: Validate.w_store w /\
+      Tree.of_plan sp = Some tp /\ Tree.sp_id tp = id /\
+      Permutation (Tree.pln_ids tp) (map supply (seq (Validate.w_next w) k)) /\
+      Validate.w_next w' = Validate.w_next w + k /\
+      NoDup (Tree.pln_ids tp) /\ Forall GlueStore.good_id (Tree.pln_ids tp) /\
+      forall (req_ok : tok -> blob -> bool) (att_ok : tok -> attempt -> bool),
+        GlueStore.reg_coherent req_ok p -> (0 <= now)%Z -> SqliteRep.pln_dom req_ok att_ok tp.
+Proof. exact GlueStore.submitted_in_store_domain. Qed.
+Print Assumptions glue3_submitted_in_store_domain.
+
+(* every history: any list of Submit calls (clock reading, register-already-set flag, plan - accepted or
+   rejected alike) on an empty vault, ids drawn from position n0 on.  The vault's plans, oldest first
+   (GlueStoreHistory.history = rev w_store), translate to tps, and the operation list  map OCreate tps  meets
+   BOTH premises of c13_roundtrip_sqlite_distinct_ids (the list-only domain form) *)
+Theorem glue3_submits_in_store_domain :
+  forall (supply : nat -> uid) (create_ok : plan -> bool),
+    (forall i j, u_ix (supply i) = u_ix (supply j) -> i = j) ->
+    (forall i, u_ix (supply i) <> 0%N /\ u_v7 (supply i) = true) ->
+  forall (req_ok : tok -> blob -> bool) (att_ok : tok -> attempt -> bool)
+         (calls : list GlueStoreHistory.call) (n0 : nat),
+    Forall (GlueStoreHistory.call_ok req_ok) calls ->
+    exists tps : list Tree.spln,
+      Forall2 (fun sp tp => Tree.of_plan sp = Some tp)
+              (GlueStoreHistory.history
+                 (GlueStoreHistory.run_submits supply create_ok calls (Validate.Build_world [] n0))) tps /\
+      Forall (fun tp => Forall GlueStore.good_id (Tree.pln_ids tp)) tps /\
+      Forall (SqliteStatic.op_static req_ok att_ok (SqliteStatic.created (map Tree.OCreate tps)))
+             (map Tree.OCreate tps) /\
+      ForallOrdPairs (fun p q => Tree.sp_id p = Tree.sp_id q \/ SqliteStatic.ids_disjoint q p)
+                     (SqliteStatic.created (map Tree.OCreate tps)).
+Proof. exact GlueStoreHistory.submits_in_store_domain. Qed.
+Print Assumptions glue3_submits_in_store_domain.
+
+(* ... so the published round-trip theorem applies to it with no domain premise left: whatever Submit
+   accepted, created in that order in the sqlite model, reads back as the specification store says *)
+Theorem glue3_submits_roundtrip_sqlite :
+  forall (supply : nat -> uid) (create_ok : plan -> bool)
+         (enc_req : blob -> option Rows.code) (dec_req : tok -> Rows.code -> option blob)
+         (enc_att : attempt -> option Rows.code) (dec_att : tok -> Rows.code -> option attempt)
+         (req_ok : tok -> blob -> bool) (att_ok : tok -> attempt -> bool),
+    (forall i j, u_ix (supply i) = u_ix (supply j) -> i = j) ->
+    (forall i, u_ix (supply i) <> 0%N /\ u_v7 (supply i) = true) ->
+    (forall t b c, req_ok t b = true -> enc_req b = Some c -> dec_req t c = Some b) ->
+    (forall t a c, att_ok t a = true -> enc_att a = Some c -> dec_att t c = Some a) ->
+  forall (calls : list GlueStoreHistory.call) (n0 : nat),
+    Forall (GlueStoreHistory.call_ok req_ok) calls ->
+    exists tps : list Tree.spln,
+      Forall2 (fun sp tp => Tree.of_plan sp = Some tp)
+              (GlueStoreHistory.history
+                 (GlueStoreHistory.run_submits supply create_ok calls (Validate.Build_world [] n0))) tps /\
+      forall id : uid,
+        SqliteModel.read dec_req dec_att id
+          (SqliteModel.run enc_req dec_req enc_att dec_att (map Tree.OCreate tps) [])
+        = Spec.read id (Spec.run enc_req enc_att (map Tree.OCreate tps) [])
+        /\ SqliteModel.results enc_req dec_req enc_att dec_att (map Tree.OCreate tps) []
+           = Spec.results enc_req enc_att (map Tree.OCreate tps) [].
+Proof. exact GlueStoreCor.submits_roundtrip_sqlite. Qed.
+Print Assumptions glue3_submits_roundtrip_sqlite.
+
+(* instances: the two id orders of the stored example plan; a three-call history (accepted, rejected for a
+   duplicate key, accepted) leaves two plans with ids 8..28 and 29..49; a non-constant coherent registry *)
+Theorem glue3_nonvacuous :
+  GlueStoreHistory.Inv Coercion.Validate.ValidateExamples.ex_supply GlueExamples.ex3_req_ok (fun _ _ => true)
+    (Validate.Build_world [] 7) [] /\
+  Validate.w_next GlueExamples.ex3_world = 49 /\
+  GlueStore.reg_coherent GlueExamples.ex3_req_ok Coercion.Validate.ValidateExamples.ex_plan /\
+  option_map (fun tp => map u_ix (Tree.pln_ids tp)) GlueExamples.ex3_tp
+    = Some [8; 9; 10; 11; 12; 14; 15; 19; 20; 13; 16; 17; 18; 22; 23; 27; 28; 21; 24; 25; 26]%N.
+Proof.
+  split; [split; [constructor|split; constructor]|].
+  exact (conj (proj1 GlueExamples.ex3_history)
+        (conj (proj1 GlueExamples.ex3_coherent) (proj1 (proj2 GlueExamples.ex3_ids)))).
+Qed.
+Print Assumptions glue3_nonvacuous.
